@@ -242,3 +242,98 @@ def machine_vs_impl(mrec, impl_plain):
     if m['k'] == 'ok' and unval(m['v']) != ren(impl_plain['v']):
         return f"machine value {unval(m['v'])!r}, implementation {ren(impl_plain['v'])!r}"
     return None
+
+
+def _tlc_traces(path_and_n):
+    path, n = path_and_n
+    r = tlc.run_tlc('PegTrace', env={'VERIF_TRACES': path}, workers=1, timeout=3000, heap='3g')
+    acc = r.res.get('accepted')
+    if not acc:
+        raise tlc.MachineryError('PegTrace produced no acceptance report:\n' + r.stdout[-2000:])
+    return {'accepted': acc['accepted'] if isinstance(acc['accepted'], list) else [], 'reached': acc['reached'], 'distinct': r.distinct,
+            'generated': r.generated, 'wall': r.wall}
+
+
+def trace_validate(ck, cases, shards=12, label='traces', corrupt_selftest=True):
+    """Record executions of the real engine for `cases` (recorder.record_case format) and validate every trace against PegTrace.
+    A rejected trace is a violation; the report carries the longest matched prefix and the events around the rejection point."""
+    import concurrent.futures as cf
+    import copy
+    import random as _r
+    from .recorder import record_case
+    recs = [r for ch in pmap(record_case, cases, procs=16, chunk=4, recycle=120) for r in ch]
+    errs = [r for r in recs if 'error' in r]
+    recs = [r for r in recs if 'error' not in r]
+    for e in errs[:3]:
+        ck.violation({'kind': 'trace', 'inputs': {'recording': e}, 'expected': 'a parse that can be recorded', 'observed': e['error']},
+                     key='recerr' + e['error'][:30])
+    if not recs:
+        return 0
+    # binding self-test: corrupt one logged field of some traces; each corrupted copy must be REJECTED
+    corrupted = []
+    if corrupt_selftest:
+        rr = _r.Random(7)
+        pool = [r for r in recs if len(r['ev']) >= 4][:200]
+        for r in rr.sample(pool, min(24, len(pool))):
+            c = copy.deepcopy(r)
+            k = rr.randrange(len(c['ev']))
+            e = c['ev'][k]
+            if e['ev'] in ('ok',) and rr.random() < 0.5:
+                e['v'] = {'t': 's', 'v': list('corrupted')}
+                what = 'value of an ok event'
+            elif e['ev'] in ('enter', 'ok', 'cut') or (e['ev'] == 'match' and e['ok']):
+                e['pos'] = e['pos'] + 1
+                what = f'position of a {e["ev"]} event'
+            elif e['ev'] == 'match':
+                e['ok'] = not e['ok']
+                what = 'outcome of a match event'
+            else:
+                c['ev'].pop(k)
+                what = f'dropped a {e["ev"]} event'
+            c['_corrupt'] = what
+            corrupted.append(c)
+    allrecs = recs + corrupted
+    d = tlc.scratch_dir('traces')
+    try:
+        size = max(1, -(-len(allrecs) // shards))
+        parts = [allrecs[i:i + size] for i in range(0, len(allrecs), size)]
+        paths = []
+        for i, part in enumerate(parts):
+            p = os.path.join(d, f't{i}.json')
+            json.dump([{k: v for k, v in r.items() if not k.startswith('_')} for r in part], open(p, 'w'))
+            paths.append((p, len(part)))
+        with cf.ThreadPoolExecutor(max_workers=min(16, len(paths))) as ex:
+            results = list(ex.map(_tlc_traces, paths))
+    finally:
+        shutil.rmtree(d, ignore_errors=True)
+    nacc = 0
+    fake = type('R', (), {})
+    for part, res in zip(parts, results):
+        fr = fake()
+        fr.distinct, fr.generated, fr.wall, fr.coverage = res['distinct'], res['generated'], res['wall'], {}
+        ck.add_tlc(fr, f'PegTrace ({label})')
+        acc = set(res['accepted'])
+        for i, r in enumerate(part, 1):
+            reached = res['reached'][i - 1] if isinstance(res['reached'], list) else 0
+            if '_corrupt' in r:
+                if i in acc:
+                    ck.notes.setdefault('corruptions_not_rejected', []).append(r['_corrupt'])
+                else:
+                    ck.notes['corruptions_rejected'] = ck.notes.get('corruptions_rejected', 0) + 1
+                continue
+            ck.count(evaluations=1, traces=1)
+            if i in acc:
+                nacc += 1
+                continue
+            ebnf = to_ebnf(r['g'])
+            ck.violation({'kind': 'trace', 'inputs': {'grammar': ebnf, 'text': ''.join(r['inp']), 'start': r['start']},
+                          'expected': 'the recorded execution is a behaviour of PegMachine',
+                          'observed': {'events_matched': max(0, reached - 1), 'of': len(r['ev']),
+                                       'around_rejection': r['ev'][max(0, reached - 3):reached + 1]},
+                          'why': 'trace rejected by PegTrace', 'spec': 'PegTrace!TNext'}, key='trace' + ebnf)
+    ck.notes[f'{label}_validated'] = ck.notes.get(f'{label}_validated', 0) + nacc
+    ck.notes.setdefault('trace_events', 0)
+    ck.notes['trace_events'] += sum(len(r['ev']) for r in recs)
+    if corrupt_selftest and corrupted and ck.notes.get('corruptions_rejected', 0) < len(corrupted) * 0.6:
+        raise tlc.MachineryError(f"trace binding self-test: only {ck.notes.get('corruptions_rejected', 0)} of {len(corrupted)} corrupted traces were rejected")
+    return nacc
